@@ -193,7 +193,7 @@ static void deliver_ps(int s, const m_evt_t *e, int idx_in_inv, int *is_trigger_
     if (pe.pats == 0) { if (e->userdata != NULL) vfail("EV.owner", "EV.owner|ps-userdata", "%s: direct message delivered with a non-NULL user pointer", m->name); }
     else {
         for (int q = 0; q < NPAT; q++) if (pe.pats & (1u << q)) for (int v = 0; v < 2; v++) if (e->userdata == &UPV[s][q][v]) {
-            found = 1; prio = m->sub[q].present ? m->sub[q].prio : PR_NORM;
+            found = 1; prio = pe.prio >= 0 ? pe.prio : (m->sub[q].present ? m->sub[q].prio : PR_NORM);
             if (m->sub[q].present && m->sub[q].oneshot) { m->sub[q].present = 0; TRACE("one-shot subscription %s of %s consumed", PAT[q], m->name); }
         }
         if (!found) vfail("EV.owner", "EV.owner|ps-userdata", "%s: message on topic %s delivered with a user pointer that belongs to none of its matching subscriptions", m->name, ps->topic ? ps->topic : "NULL");
@@ -201,7 +201,7 @@ static void deliver_ps(int s, const m_evt_t *e, int idx_in_inv, int *is_trigger_
     if (!pe.optional) g->owed--;
     msg_busy[pe.msg]++;
     *prio_out = prio; *is_trigger_high = prio == PR_HIGH;
-    cur_evrec[idx_in_inv] = new_evrec(e, 0, pe.msg, 0);
+    cur_evrec[idx_in_inv] = new_evrec(e, 0, pe.msg, 0); EV[cur_evrec[idx_in_inv]].prio = prio;
     obs(5000 + pe.msg);
 }
 
